@@ -48,7 +48,8 @@ def _case(draw, unit):
         return [draw(st.booleans()) for _ in range(J)]
     case = {'direction': direction, 'biort': b, 'qshift': q, 'J': J,
             'size': [draw(st.integers(2, 14)), draw(st.integers(2, 14))],
-            'o_dim': o, 'ri_dim': ri, 'rx': draw(core.recipe_strategy()), 'rg': draw(core.recipe_strategy()),
+            'o_dim': o, 'ri_dim': ri, 'mode': draw(st.sampled_from(['symmetric', 'symmetric', 'zero'])),
+            'rx': draw(core.recipe_strategy()), 'rg': draw(core.recipe_strategy()),
             'k': draw(st.integers(0, 10**6))}
     if direction == 'forward':
         case['skip'] = mask()
@@ -92,7 +93,7 @@ def run_case(case):
     J = case['J']
     H, W = case['size']
     nondefault = (o % 6, ri % 6) != (2, 5)
-    r.label(case['direction'], 'nondefault_layout' if nondefault else None, 'J>=2' if J >= 2 else None,
+    r.label(case['direction'], 'mode_' + case.get('mode', 'symmetric'), 'nondefault_layout' if nondefault else None, 'J>=2' if J >= 2 else None,
             *dtu.size_labels(H, W, J))
     with dwtu.default_dtype(torch.float64):
         if case['direction'] == 'forward':
@@ -126,7 +127,7 @@ def _forward(case, r, nondefault):
     r.label('some_skipped' if any(skip) else None, 'some_scales' if any(scl) else None)
     r.nontrivial = nondefault or any(skip) or any(scl) or J >= 2
     fwd = DTCWTForward(biort=case['biort'], qshift=case['qshift'], J=J, o_dim=case['o_dim'], ri_dim=case['ri_dim'],
-                       skip_hps=skip, include_scale=scl)
+                       skip_hps=skip, include_scale=scl, mode=case.get('mode', 'symmetric'))
     n_in = H * W
     with torch.no_grad():
         A = _flat(_outs(core.libcall(fwd, torch.tensor(dwtu.basis([H, W])[:, None])), skip, scl, case['o_dim'], case['ri_dim'])).numpy()  # (n_in,total)
@@ -179,7 +180,7 @@ def _inverse(case, r, nondefault):
             'proper_grad_subset' if len(sub) < len(present) else None,
             'low_without_grad' if ('low' in present and 'low' not in sub) else None)
     r.nontrivial = nondefault or any(ab) or len(sub) < len(present) or J >= 2
-    inv = DTCWTInverse(biort=case['biort'], qshift=case['qshift'], o_dim=o, ri_dim=ri)
+    inv = DTCWTInverse(biort=case['biort'], qshift=case['qshift'], o_dim=o, ri_dim=ri, mode=case.get('mode', 'symmetric'))
     lo_shape, hs, _ = dtu.pyramid_shapes(H, W, J)
     shapes = {'low': tuple(lo_shape)}
     for j in range(J):
